@@ -114,6 +114,132 @@ def evalStoredFixed (comp : List (α → α)) (corr th : α → α) (u' a preA :
 
 end generic
 
+/-! ### PPO / IPPO glue between the rollout and the update
+
+  Which action, which mask and which log-probability travel from `get_action` through the rollout into `learn` and
+  back into the actor (`agilerl/algorithms/ppo.py`: `_get_action_and_values`, `evaluate_actions`, `get_action`, the
+  minibatch statements of `learn`; `agilerl/algorithms/ippo.py`: the per-group body of `get_action`, the minibatch
+  statements of `_learn_individual`).  The actor, the critic and the tensor primitives are the fields of `Glue`
+  (parameters, never defaults): `forward_head o d m` / `forward o d m` = (action, log_prob, entropy or `None`) of a
+  forward pass on observations `o` with sampler draw `d` under mask `m`; `action_log_prob o d m a` =
+  `actor.action_log_prob(a)` when the most recent forward pass was `(o, d, m)`.  `T` is a batch tensor of actions. -/
+
+/-- the entropy PPO reports: one number (the stand-in `-mean(log_prob)`) or one value per row -/
+inductive PEnt (α : Type) where
+  | scalar (x : α)
+  | rows (xs : List α)
+
+/-- `.mean()` (of a rank-0 tensor: the tensor) -/
+def PEnt.mean {α : Type} (mean : List α → α) : PEnt α → α
+  | .scalar x => x
+  | .rows xs => mean xs
+
+structure Glue (α T O M D : Type) where
+  lit : Rat → T
+  num : Rat → α
+  exp : α → α
+  mean : List α → α
+  squeeze : T → T
+  unsqueeze : T → Nat → T
+  dim : T → Nat
+  clip : T → T → T → T
+  scale_action : T → T
+  squash_output : Bool
+  forward_head : O → D → Option M → T × List α × Option (List α)
+  forward : O → D → Option M → T × List α × Option (List α)
+  action_log_prob : O → D → Option M → T → List α
+  critic : O → List α
+  critic_head : O → List α
+
+section glue
+variable {α T O M D : Type} [Add T] [Sub T] [Mul T] [Sub α] [Neg α]
+
+/-- `entropy = -log_prob.mean() if entropy is None else entropy` -/
+def Glue.entOf (G : Glue α T O M D) (ent : Option (List α)) (lp : List α) : PEnt α :=
+  match ent with
+  | none => .scalar (-(G.mean lp))
+  | some r => .rows r
+
+/-- the critic's value: through the shared encoder or on its own -/
+def Glue.value (G : Glue α T O M D) (share : Bool) (obs : O) : List α :=
+  if share then G.critic_head obs else G.critic obs
+
+/-- what leaves `get_action`: in evaluation mode on a Box space the action is rescaled (`squash_output`) or clipped;
+    in training mode, and on every other space, it is the policy's action as sampled -/
+def Glue.envAction (G : Glue α T O M D) (scaled : T → T) (evalBox : Bool) (low high a : T) : T :=
+  if evalBox then (if G.squash_output then scaled a else G.clip a low high) else a
+
+/-- PPO's numpy copy of `StochasticActor.scale_action`: `low + 0.5 * (action + 1.0) * (high - low)` -/
+def Glue.ppoScale (G : Glue α T O M D) (low high a : T) : T :=
+  low + G.lit (1 / 2) * (a + G.lit 1) * (high - low)
+
+/-- `PPO._get_action_and_values(obs, action_mask)` -/
+def Glue.ppoActionAndValues (G : Glue α T O M D) (share : Bool) (obs : O) (mask : Option M) (d : D) :
+    T × List α × Option (List α) × List α :=
+  let r := G.forward_head obs d mask
+  (r.1, r.2.1, r.2.2, G.value share obs)
+
+/-- `PPO.get_action(obs, action_mask)`: (action, log_prob, entropy, values).  The training loops store `.1` and `.2.1`. -/
+def Glue.ppoGetAction (G : Glue α T O M D) (isBox share training : Bool) (high low : T) (obs : O) (mask : Option M)
+    (d : D) : T × List α × PEnt α × List α :=
+  let r := G.forward_head obs d mask
+  (G.envAction (G.ppoScale low high) (!training && isBox) low high r.1, r.2.1, G.entOf r.2.2 r.2.1, G.value share obs)
+
+/-- `PPO.evaluate_actions(obs, actions)`: a forward pass WITHOUT a mask (the method has no mask argument), then
+    `action_log_prob(actions)`; the entropy of that pass, or `-mean(log_prob of the stored actions)` -/
+def Glue.ppoEvaluate (G : Glue α T O M D) (share : Bool) (obs : O) (actions : T) (d : D) : List α × PEnt α × List α :=
+  let lp := G.action_log_prob obs d none actions
+  (lp, G.entOf (G.forward_head obs d none).2.2 lp, G.value share obs)
+
+/-- `batch_actions.squeeze()` and the repair of the lost action dimension:
+    `if batch_actions.dim() == 1 and not isinstance(action_space, Discrete): batch_actions = batch_actions.unsqueeze(1)` -/
+def handedWith {T : Type} (squeeze : T → T) (unsqueeze : T → Nat → T) (dim : T → Nat) (isDiscrete : Bool) (a : T) : T :=
+  if dim (squeeze a) = 1 ∧ isDiscrete = false then unsqueeze (squeeze a) 1 else squeeze a
+
+def Glue.handed (G : Glue α T O M D) (isDiscrete : Bool) (a : T) : T :=
+  handedWith G.squeeze G.unsqueeze G.dim isDiscrete a
+
+/-- `PPO.learn`, one minibatch of `n` indices: skipped (`none`) unless `n > 1`; else the action handed to the actor,
+    the re-computed log-prob, `logratio = log_prob - batch_log_probs`, `ratio = exp(logratio)`, `entropy.mean()` -/
+def Glue.ppoLearnMinibatch (G : Glue α T O M D) (isDiscrete : Bool) (n : Nat) (share : Bool) (obs : O) (a : T)
+    (stored : List α) (d : D) : Option (T × List α × List α × List α × α) :=
+  if n > 1 then
+    let ev := G.ppoEvaluate share obs (G.handed isDiscrete a) d
+    let logratio := List.zipWith (fun x y => x - y) ev.1 stored
+    some (G.handed isDiscrete a, ev.1, logratio, logratio.map G.exp, ev.2.1.mean G.mean)
+  else none
+
+/-- `IPPO.get_action`, one homogeneous group: `actor(obs, action_mask=…)` (StochasticActor.forward: the action is
+    already scaled to the bounds when squashing), rescaled AGAIN / clipped in evaluation mode; the entropy entry is
+    `none` (`None.cpu()` raises) when the policy reports no entropy: IPPO has no stand-in -/
+def Glue.ippoGetActionAgent (G : Glue α T O M D) (isBox training : Bool) (high low : T) (obs : O) (mask : Option M)
+    (d : D) : T × List α × Option (List α) × List α :=
+  let r := G.forward obs d mask
+  (G.envAction G.scale_action (!training && isBox) low high r.1, r.2.1, r.2.2, G.critic obs)
+
+/-- `IPPO._learn_individual`, one minibatch: forward pass without a mask, `action_log_prob(batch_actions)` -/
+def Glue.ippoLearnMinibatch (G : Glue α T O M D) (isDiscrete : Bool) (n : Nat) (obs : O) (a : T)
+    (stored : List α) (d : D) : Option (T × List α × List α × List α × Option α) :=
+  if n > 1 then
+    let lp := G.action_log_prob obs d none (G.handed isDiscrete a)
+    let logratio := List.zipWith (fun x y => x - y) lp stored
+    some (G.handed isDiscrete a, lp, logratio, logratio.map G.exp, (G.forward obs d none).2.2.map G.mean)
+  else none
+
+end glue
+
+/-- a batch tensor as the squeeze logic sees it: its shape and its rows -/
+structure Shaped (β : Type) where
+  shape : List Nat
+  rows : List β
+
+/-- `x.squeeze()`: every dimension of size 1 disappears -/
+def Shaped.squeeze {β : Type} (t : Shaped β) : Shaped β := { t with shape := t.shape.filter (fun n => n != 1) }
+/-- `x.unsqueeze(k)` -/
+def Shaped.unsqueeze {β : Type} (t : Shaped β) (k : Nat) : Shaped β :=
+  { t with shape := t.shape.take k ++ 1 :: t.shape.drop k }
+def Shaped.dim {β : Type} (t : Shaped β) : Nat := t.shape.length
+
 /-! ### rational instances used by the driver -/
 
 /-- the constant written by `apply_action_mask_discrete` (−1e8 is exact in float32) -/
